@@ -9,3 +9,25 @@ check("C13", "fault_enumeration",
       "(4096 via the override hook, and the system default); bounds: 10 attempts, shapes as listed in the property.",
       "TLC model checking of Frag.tla + replay of every TLC behaviour with fault injection + TLC trace validation",
       "DESIGN.md 3.2, 6 (C13)")
+check("C01", "model_checking",
+      "Frag.tla is model-checked by TLC with the fragment arithmetic the running code reports, for every length "
+      "within +/-16 of the k-th packet boundary (k=1..4) plus 0,1,7,8,9, at send-buffer sizes 4096, 8192, (20000, "
+      "65536) and the system default; every behaviour is replayed through the platform layer and its system-call "
+      "trace validated against FragTrace.tla (no packet larger than the buffer offered for it, contiguous extents, "
+      "receive buffer never beyond capacity). The public API is exercised on the os, memfd and in-process builds "
+      "with a seeded family of serde values (floats by bit pattern) and byte payloads at the same boundaries "
+      "(thorough: random lengths up to 64 MiB).",
+      "Lengths other than the boundary sets are sampled, not enumerated; bincode is trusted for value<->bytes; "
+      "send-buffer sizes below the default come from the override hook; macOS/Windows back-ends do not build here.",
+      "TLC model checking of Frag.tla + replay of TLC behaviours + TLC trace validation + API round trips on three builds",
+      "DESIGN.md 3.2, 6 (C01)")
+check("C15", "model_checking",
+      "Frag.tla's OverfullRefused/NoMangle/AcceptedArrives are model-checked with the control-buffer capacity the "
+      "code reports (quick: attachment counts 0,1,62..66,127,128,252..254,300; thorough: every count 0..300) x "
+      "sender/receiver/region mixtures x data parts empty/small/exactly one packet/one byte over/multi-packet; every "
+      "behaviour is replayed: accepted messages must arrive with every attachment working (identity probes), "
+      "refused ones must leave the channel usable, nothing may hang or panic.",
+      "Attachments are exercised at the platform layer (OsIpcSender::send with channel and region lists); premises "
+      "K2/K3 about the kernel's treatment of excess descriptors.",
+      "TLC model checking of Frag.tla + replay of TLC behaviours + TLC trace validation",
+      "DESIGN.md 3.2, 6 (C15)")
